@@ -6,6 +6,7 @@ C02 — streaming round trip under any call history and buffer segmentation.
 -/
 import ZstdVerif.Lemmas.StreamSpec
 import ZstdVerif.Lemmas.DStreamRT
+import ZstdVerif.Lemmas.DStreamTotal
 import ZstdVerif.Lemmas.CStreamRT
 import ZstdVerif.Model.MTBack
 namespace ZstdVerif.Props.C02
@@ -55,6 +56,18 @@ theorem dstream_any_segmentation_eq_oneShot (all : List FrameD) (content : List 
     (hdone : (({} : DState).run (calls content (State.start all) io)).produced = content.length) :
     (({} : DState).run (calls content (State.start all) io)).output = content :=
   DStream.model_any_segmentation_eq_oneShot all content hok hlen io hf hdone
+
+open DStream in
+/-- **dstream_any_offered_segmentation_eq_oneShot**: the same without any hypothesis on the calls' outcomes.  On a well-formed stream whose
+windows the decoder accepts (`WindowsOk`: (clamped) window ≤ ZSTD_MAXWINDOWSIZE_DEFAULT), under ANY segmentation that offers at least one byte
+of input (within the stream: `Within`) and one byte of output room per call, NO call of the model reports an error (`Feasible`), and a history
+that has produced as many bytes as the content holds has produced exactly the one-shot content -/
+theorem dstream_any_offered_segmentation_eq_oneShot (all : List FrameD) (content : List Nat) (hok : AllOk all)
+    (hwin : WindowsOk all ZSTD_MAXWINDOWSIZE_DEFAULT) (hlen : content.length = regenAll all) (io : List (Nat × Nat))
+    (hw : Within all (State.start all) io) (hoff : Offered io)
+    (hdone : (({} : DState).run (calls content (State.start all) io)).produced = content.length) :
+    Feasible all (State.start all) io ∧ (({} : DState).run (calls content (State.start all) io)).output = content :=
+  DStream.model_any_offered_segmentation_eq_oneShot all content hok hwin hlen io hw hoff hdone
 
 open DStream in
 /-- **dstream_zero_iff_frame_end**: the model's return value is 0 exactly when the totals after the call sit on a frame end and the call made
